@@ -33,6 +33,8 @@ pub struct DriveParams {
     pub spurious_pct: u32,
     /// callers may be re-created after they finished (ids keep growing)
     pub reuse_ids: bool,
+    /// non-urgent executor: time may pass although somebody is runnable
+    pub lazy: bool,
 }
 impl Default for DriveParams {
     fn default() -> Self {
@@ -52,6 +54,7 @@ impl Default for DriveParams {
             ops: vec![],
             spurious_pct: 3,
             reuse_ids: false,
+            lazy: false,
         }
     }
 }
@@ -89,7 +92,7 @@ pub async fn drive_random(sim: &mut Sim, ad: &mut dyn Adapter, rng: &mut Rng, p:
         let live = sim.live();
         let pend = sim.w.lock().unwrap().pending_gates();
         let can_create = next_id <= p.n;
-        let can_adv = flagged.is_empty() && sim.now_ms() < p.horizon;
+        let can_adv = (flagged.is_empty() || p.lazy) && sim.now_ms() < p.horizon;
         let ws = [
             if can_create { p.w_create } else { 0 },
             if !flagged.is_empty() { p.w_poll } else { 0 },
@@ -194,6 +197,13 @@ pub async fn drive_schedule(sim: &mut Sim, ad: &mut dyn Adapter, evs: &[Value], 
                 let c = geti(ev, "c").unwrap_or(0) as usize;
                 if !sim.drop_caller(c).await {
                     skipped += 1;
+                }
+            }
+            "completeall" => {
+                let out = GOut::parse(ev.get("out").and_then(|v| v.as_str()).unwrap_or("ok"));
+                let pend = sim.w.lock().unwrap().pending_gates();
+                for i in pend {
+                    sim.complete(i, out.clone()).await;
                 }
             }
             "dropall" => {
